@@ -5,9 +5,13 @@ import json, os, glob
 V = os.path.dirname(os.path.dirname(os.path.abspath(__file__)))
 allp = [json.loads(l)["id"] for l in open(os.path.join(V, "properties.jsonl"))]
 checks, engines = [], {}
+ready_path = os.path.join(V, "props", "ready.txt")
+ready = set(open(ready_path).read().split()) if os.path.exists(ready_path) else None
 for f in sorted(glob.glob(os.path.join(V, "props", "C*.json"))):
     c = json.load(open(f))
     pid = c["id"]
+    if ready is not None and pid not in ready:
+        continue
     engines.setdefault(c.get("engine", "misc"), []).append(pid)
     checks.append({
         "property_id": pid,
